@@ -26,7 +26,7 @@ const ID = "C13"
 //	reg     register a recording callback: Owner kind, When, Target; Ref/Col choose the owner among what exists
 //	render  one render pass (Via: invoke | csv)
 //	dense     N cell callbacks on the table plus one on each of the first three columns, all in the slot When
-//	seedcell  a stand-alone cell gets a render callback registered on it and is then added (by value) to
+//	seedcell  a stand-alone cell gets N render callbacks registered on it and is then added (by value) to
 //	          the rows Ref and Col: both copies carry the registration; later registrations on one copy
 //	          must not leak to the other
 type Step struct {
@@ -43,6 +43,9 @@ type Step struct {
 	Via2 bool `json:"via2,omitempty"`
 	// N > 1 (reg steps): the same registration is made N times (N distinct callbacks in one slot)
 	N int `json:"n,omitempty"`
+	// Err (reg, dense): the callback does its work and then reports an error; that is no reason for any other
+	// callback not to be invoked
+	Err bool `json:"err,omitempty"`
 }
 
 type Case struct {
@@ -110,8 +113,9 @@ type world struct {
 }
 
 type recorder struct {
-	r *reg
-	w *world
+	r    *reg
+	w    *world
+	fail bool
 }
 
 func (rc *recorder) UpdateProperties(po tabular.PropertyOwner) error {
@@ -124,6 +128,9 @@ func (rc *recorder) UpdateProperties(po tabular.PropertyOwner) error {
 		w.late = append(w.late, pendingEvent{len(w.actual) - 1, po, w.seq})
 	} else {
 		w.marks[event{rc.r.id, obj}] = w.seq
+	}
+	if rc.fail {
+		return fmt.Errorf("callback %d reports a problem of its own", rc.r.id)
 	}
 	return nil
 }
@@ -202,14 +209,11 @@ func specified(r *reg, obj ident) bool {
 			return r.when == wAdd && obj != "?row"
 		}
 	case "column":
-		if r.col == 0 {
-			return false
-		}
 		switch r.target {
 		case tItself:
-			return r.when == wPre || r.when == wPost
+			return r.when == wPre || r.when == wPost // column 0, the defaults column, is one of the columns
 		case tCell:
-			return r.when != wRender && !hdr
+			return r.col != 0 && r.when != wRender && !hdr // column 0 has no cells of its own
 		}
 	case "row":
 		switch r.target {
@@ -479,17 +483,26 @@ func CheckCase(c Case) *ev.Violation {
 			a := rowsWithCells[((st.Ref%len(rowsWithCells))+len(rowsWithCells))%len(rowsWithCells)]
 			b := rowsWithCells[((st.Col%len(rowsWithCells))+len(rowsWithCells))%len(rowsWithCells)]
 			cell := tabular.NewCell("seed")
-			w.nextID++
-			id := w.nextID
-			proto := &reg{id: id, owner: "cell", when: wRender, target: tItself}
 			var registrar tabular.Table = t
 			if st.Via2 {
 				registrar = other
 			}
-			if err := registrar.RegisterPropertyCallback(&cell, tabular.CB_AT_RENDER, tabular.CB_ON_ITSELF, &recorder{r: proto, w: w}); err != nil {
-				return ev.V("step %d: registering a render callback on a stand-alone cell failed: %v", step, err)
+			// N callbacks on the seed (lists of 3, 5, 6, 7, 9 entries have room to spare: the copies must not meet there)
+			nseed := st.N
+			if nseed < 1 {
+				nseed = 1
 			}
-			byID[id] = proto
+			var ids []int
+			for k := 0; k < nseed; k++ {
+				w.nextID++
+				id := w.nextID
+				proto := &reg{id: id, owner: "cell", when: wRender, target: tItself}
+				if err := registrar.RegisterPropertyCallback(&cell, tabular.CB_AT_RENDER, tabular.CB_ON_ITSELF, &recorder{r: proto, w: w}); err != nil {
+					return ev.V("step %d: registering a render callback on a stand-alone cell failed: %v", step, err)
+				}
+				byID[id] = proto
+				ids = append(ids, id)
+			}
 			for _, mr := range []*gen.MRow{a, b} {
 				// the add itself may fire the row's add-time cell callbacks
 				w.predictOp(gen.Op{K: "rowadd", Ref: w.rowIndex(mr), Items: []gen.Item{gen.S("seed")}}, &pred)
@@ -501,7 +514,9 @@ func CheckCase(c Case) *ev.Violation {
 						w.m.MaxEver = len(mr.Cells)
 					}
 				}
-				w.regs = append(w.regs, &reg{id: id, owner: "cell", row: mr, cell: len(mr.Cells) - 1, when: wRender, target: tItself})
+				for _, id := range ids {
+					w.regs = append(w.regs, &reg{id: id, owner: "cell", row: mr, cell: len(mr.Cells) - 1, when: wRender, target: tItself})
+				}
 			}
 			if st.Target%3 != 0 {
 				// one more render callback on each live copy: it belongs to that copy only
@@ -530,7 +545,7 @@ func CheckCase(c Case) *ev.Violation {
 			mkreg := func(ownerKind string, col int, owner tabular.PropertyOwner) *ev.Violation {
 				w.nextID++
 				r := &reg{id: w.nextID, owner: ownerKind, col: col, when: when, target: tCell}
-				if err := t.RegisterPropertyCallback(owner, whens[when], tabular.CB_ON_CELL, &recorder{r: r, w: w}); err != nil {
+				if err := t.RegisterPropertyCallback(owner, whens[when], tabular.CB_ON_CELL, &recorder{r: r, w: w, fail: st.Err && r.id%2 == 0}); err != nil {
 					return ev.V("step %d: registering %s failed: %v", step, w.describe(r), err)
 				}
 				w.regs = append(w.regs, r)
@@ -599,7 +614,7 @@ func CheckCase(c Case) *ev.Violation {
 					// (a table named as owner through another table's method is ambiguous when it is a wrapper)
 					registrar = other
 				}
-				err := registrar.RegisterPropertyCallback(owner, whens[r.when], targets[r.target], &recorder{r: r, w: w})
+				err := registrar.RegisterPropertyCallback(owner, whens[r.when], targets[r.target], &recorder{r: r, w: w, fail: st.Err && (reps == 1 || rep%2 == 0)})
 				unsupported := (st.Owner == "column" || st.Owner == "cell" || st.Owner == "hdrcell") && r.target == tRow
 				if unsupported != (err != nil) {
 					return ev.V("step %d: registering %s returned error %v; unsupported combination: %v", step, w.describe(r), err, unsupported)
@@ -691,11 +706,21 @@ func Classify(c Case) (bool, interface{}, []string) {
 			regs++
 			owners[st.Owner] = true
 			add(fmt.Sprintf("reg-%s-w%d-t%d", st.Owner, st.When%4, st.Target%3))
+			if st.Err {
+				add("a-callback-reports-an-error")
+			}
 			if !rowsSeen {
 				regBeforeRows = true
 			}
 		case "render":
 			renders++
+		case "seedcell":
+			add("cell-with-callbacks-copied-into-two-rows")
+			if st.N >= 3 && st.Target%3 != 0 {
+				add("copies-of-a-cell-with-3-or-more-callbacks-each-get-one-more")
+			}
+		case "dense":
+			add("crowded-slot")
 		}
 	}
 	if regBeforeRows {
